@@ -66,7 +66,8 @@ def r10_2_fail_closed(ctx, prog, rule="R10.2"):
                 and r[1][0] == "Fingerprint::validate"
             ok = ok and len(git) == 1 and git[0][1].endswith("::Fingerprint>") and "raw_buffer" in repr(git[0][2])
             ok = ok and "get_input_text" in repr(C.expr_of(pa, v[0][2][1])) and "as_fingerprint" in repr(C.expr_of(pa, v[0][2][0]))
-        ctx.ob(rule, key, ok, "-> %s" % show(r)[:200], info["where"], replay=None if ok else pa.describe())
+        ctx.ob(rule, key, ok, "-> %s%s" % (show(r)[:200], "" if ok else "  (expected: Ok(fingerprint.validate(get_input_text::<Fingerprint>(raw_buffer))), "
+                                                    "Err(StunCheckFailed) when the attribute or the text is missing)"), info["where"], replay=None if ok else pa.describe())
     ctx.floor(rule, "validate_fingerprint_attribute paths", n, 3)
     paths, info = _paths(ctx, prog, FP_T + "::validate", "fp")
     n = 0
